@@ -148,7 +148,7 @@ impl<C: Cfg> World<C> {
             }
             OP_GET => {
                 let idx = ch.pick(len as u32 + 2) as usize;
-                let view = ch.pick(15);
+                let view = ch.pick(19);
                 self.do_get(v, idx, view, tr);
             }
             OP_ITER => {
@@ -316,7 +316,7 @@ impl<C: Cfg> World<C> {
             lie: 0,
             skip: None,
         };
-        let item_sinks: &[ItemSink] = if allow_forget { &[ItemSink::Drop, ItemSink::Downcast, ItemSink::MovePush, ItemSink::Forget] } else { &[ItemSink::Drop, ItemSink::Downcast, ItemSink::MovePush] };
+        let item_sinks: &[ItemSink] = if allow_forget { &[ItemSink::Drop, ItemSink::Downcast, ItemSink::MovePush, ItemSink::Forget] } else { &[ItemSink::Drop, ItemSink::Downcast, ItemSink::MovePush, ItemSink::DowncastUnchecked] };
         if hist {
             // random: mostly valid ranges, every form, random consumption
             op.typed = ch.pick(3) == 0;
